@@ -242,6 +242,89 @@ def _lemmas_with_requires(src):
     return out
 
 
+def _baseline_differential(r, u, bdir, flags):
+    """Some proof hints lost their anchor statement and an obligation of such a function failed.
+    Decide whether the CODE CHANGE or the LOST HINT is responsible: verify the committed (HEAD)
+    version of the same functions with the same hints dropped.  If HEAD still verifies without
+    them, the change broke the obligation (violation); otherwise the failure is explained by the
+    missing hint and stays undecided."""
+    import tempfile
+    affected = [f for f in r.failed if f['fn'] in r.lost_inserts]
+    if not affected:
+        return
+    tmp = tempfile.mkdtemp(prefix='vx-base-')
+    try:
+        for k, p in u.modules.items():
+            if p.startswith('registry:') or os.path.isabs(p):
+                continue
+            dst = os.path.join(tmp, p)
+            os.makedirs(os.path.dirname(dst), exist_ok=True)
+            base_repo = REPO if os.path.isdir(os.path.join(REPO, '.git')) else os.environ.get('VERIF_BASE_REPO', '/repo')
+            g = subprocess.run(['git', '-C', base_repo, 'show', 'HEAD:' + p], capture_output=True, text=True)
+            if g.returncode != 0:
+                r.reasons.append('baseline: cannot read HEAD:%s; lost anchors cannot be told from a defect' % p)
+                r.status = 'undecided'
+                r.undecided.append({'msg': 'baseline unavailable', 'where': None, 'text': ''})
+                r.failed = [f for f in r.failed if f['fn'] not in r.lost_inserts]
+                return
+            open(dst, 'w').write(g.stdout)
+        vxb, errs = run_vx(vc.job(u, sentinel=False, soft_inserts=False, drop_inserts=r.lost_inserts, repo=tmp))
+        if vxb is None or errs:
+            r.reasons.append('baseline: extraction of HEAD failed: %s' % errs[:2])
+            for f in affected:
+                f['hint_lost'] = True
+            return
+        bpath = os.path.join(bdir, 'baseline.rs')
+        btext, branges, blabels = assemble(u, vxb, bpath)
+        blines = btext.split('\n')
+        clines = open(r.unit_file).read().split('\n')
+
+        def key_of(f, lines):
+            if f.get('label'):
+                return (f['fn'], 'label:' + f['label'])
+            ln = f.get('line')
+            src = lines[ln - 1] if ln and 0 < ln <= len(lines) else ''
+            return (f['fn'], 'src:' + re.sub(r'\s+', '', src) + '|' + f['msg'])
+
+        base_fail = set()
+        base_ran = {}
+        for fn in sorted(set(f['fn'] for f in affected)):
+            short = '::'.join(fn.split('::')[-2:]) if fn.count('::') >= 2 else fn.split('::')[-1]
+            cmd, js, stderr, wall = run_verus(bpath, list(flags) + ['--verify-root', '--verify-function', short])
+            if not js or isinstance(stderr, str) and stderr == 'timeout':
+                base_ran[fn] = False
+                continue
+            base_ran[fn] = True
+            bfailed, btool, bund = classify(parse_errors(stderr, bpath), branges, blabels, u.name)
+            if btool or bund:
+                base_ran[fn] = False
+            for bf in bfailed:
+                base_fail.add(key_of(bf, blines))
+        r.baseline = {'functions': base_ran, 'failing_without_the_lost_hints': sorted('%s %s' % k for k in base_fail)}
+        kept = []
+        for f in r.failed:
+            if f['fn'] not in r.lost_inserts:
+                kept.append(f)
+                continue
+            if not base_ran.get(f['fn']):
+                r.undecided.append({'msg': 'baseline for %s could not be computed' % f['fn'], 'where': f['fn'], 'text': f['text']})
+                r.reasons.append('lost anchor in %s: baseline could not be computed' % f['fn'])
+                r.status = 'undecided'
+            elif key_of(f, clines) in base_fail:
+                # the committed code fails the SAME obligation once the hint is gone: explained by the lost hint
+                r.undecided.append({'msg': 'obligation also fails on the committed code without the lost hint', 'where': f['fn'], 'text': f['text']})
+            else:
+                f['text'] += '\n\nnote: %d statement-level proof hint(s) of this function lost their anchor; the COMMITTED version of the function, verified with the same hints dropped, does NOT fail this obligation — the code change does.' % len(r.lost_inserts[f['fn']])
+                kept.append(f)
+        r.failed = kept
+        if not kept and r.undecided:
+            r.status = 'undecided'
+            r.reasons.append('lost anchor(s): every failing obligation also fails on the committed code once the hint is dropped')
+    finally:
+        import shutil
+        shutil.rmtree(tmp, ignore_errors=True)
+
+
 class UnitResult:
     pass
 
@@ -260,7 +343,7 @@ def check_unit(vc_path, tier='quick', sentinel=True, build_dir=None, pid=None):
     bdir = build_dir or os.path.join(VERIF, 'build', u.name)
     os.makedirs(bdir, exist_ok=True)
     # 1. extraction from the working tree
-    vxout, errs = run_vx(vc.job(u, sentinel=False))
+    vxout, errs = run_vx(vc.job(u, sentinel=False, soft_inserts=True))
     r.extraction_errors = errs
     if vxout is None or errs:
         r.status = 'undecided'
@@ -269,6 +352,14 @@ def check_unit(vc_path, tier='quick', sentinel=True, build_dir=None, pid=None):
         r.vx = vxout
         return r
     r.vx = vxout
+    # statement-level proof hints whose anchor statement no longer exists (soft anchors)
+    r.lost_inserts = {}
+    for it in vxout['items']:
+        lost = sorted(int(k.split(':')[1]) for k in it['rules'] if k.startswith('LOST_INSERT:'))
+        if lost:
+            r.lost_inserts[it['path']] = lost
+            for k in [k for k in it['rules'] if k.startswith('LOST_INSERT:')]:
+                del it['rules'][k]
     path = os.path.join(bdir, 'unit.rs')
     text, ranges, labels = assemble(u, vxout, path)
     r.unit_file = path
@@ -308,6 +399,8 @@ def check_unit(vc_path, tier='quick', sentinel=True, build_dir=None, pid=None):
     if r.undecided:
         r.status = 'undecided'
         r.reasons += ['solver: ' + t['msg'] for t in r.undecided[:5]]
+    if r.failed and r.lost_inserts:
+        _baseline_differential(r, u, bdir, flags)
     if r.failed:
         if r.status != 'undecided' or not r.tool_errors:
             r.status = 'violation'
